@@ -28,3 +28,4 @@ def run(rep):
     mr.rule_reset(rep, "C05.matcherreset", classes=(mr.MQ,))
     lr.rule_scanner(rep, "C05.line", "C05.verbatim")
     lr.rule_line_basics(rep, "C05.trimmed")
+    mr.rule_match_result(rep, "C05.result")
